@@ -1114,7 +1114,12 @@ pub fn family_reqbreak() -> Vec<PProblem> {
                             s.start_latest = None;
                             let mut jobs = jobs;
                             jobs[0].tasks[0].places[0].times = vec![(120., 300.)];
-                            out.push(base(format!("reqbreak/n{n}/w{wi}/d{duration}/late-first-job"), jobs, vec![vehicle_type("v", fleet, &[4], vec![s])]).fit_matrices());
+                            out.push(base(format!("reqbreak/n{n}/w{wi}/d{duration}/late-first-job"), jobs.clone(), vec![vehicle_type("v", fleet, &[4], vec![s.clone()])]).fit_matrices());
+                            // every job is late: nothing keeps the vehicle from leaving after the break
+                            for j in jobs.iter_mut() {
+                                j.tasks[0].places[0].times = vec![(120., 300.)];
+                            }
+                            out.push(base(format!("reqbreak/n{n}/w{wi}/d{duration}/late-all-jobs"), jobs, vec![vehicle_type("v", fleet, &[4], vec![s])]).fit_matrices());
                         }
                     }
                 }
